@@ -20,6 +20,9 @@ import (
 //	                          modelled by hand in Eval/Interp.v
 //	pkg/eval/exprOp.go        concat: does it copy its left operand before appending (concat_copies)
 //	pkg/eval/exprEval.go      setAppender / listAppender shape, which appender each transform kind uses
+//	pkg/eval/binexprEval.go   LHSOverRHSStrategy.eval: what happens to the scope variable after the iteration
+//	pkg/eval/exprEval.go      evalTransform / evalTransformUsingAppender: the same for transforms
+//	                          (SvDeleteThenRestore | SvDeleteOnly | SvRestoreOnly | SvLeak | SvUnknown)
 //
 // Entries are emitted sorted, keyed by operator / kind names, never by position. A function name the model
 // does not know becomes F_unknown / G_unknown / U_unknown / SUnknown, and the `reflexivity` lemmas of
@@ -436,7 +439,186 @@ func evalTables(repo string) (string, error) {
 		}
 		return "AppUnknown"
 	}
+	fmt.Fprintf(&sb, "Definition where_flatten_scopevar : sv_after := %s.\n", lhsOverRhsScopeVar(bf.file))
+	fmt.Fprintf(&sb, "Definition transform_scopevar : sv_after := %s.\n", transformScopeVar(ef.file))
 	fmt.Fprintf(&sb, "Definition set_transform_appender : appender_kind := %s.\n", wrapperUses("evalTransformUsingValueSet"))
 	fmt.Fprintf(&sb, "Definition list_transform_appender : appender_kind := %s.\n", wrapperUses("evalTransformUsingValueList"))
 	return sb.String(), nil
+}
+
+// ---- what the code does with the scope variable of an iteration once the iteration is over ----
+
+// isScopeVarIndex: assign[<something>.Scopevar] or assign[scopeVar]
+func isScopeVarIndex(e ast.Expr) bool {
+	ix, ok := e.(*ast.IndexExpr)
+	if !ok || !isIdent(ix.X, "assign") {
+		return false
+	}
+	ch := selChain(ix.Index)
+	if len(ch) == 0 {
+		return false
+	}
+	last := ch[len(ch)-1]
+	return last == "Scopevar" || last == "scopeVar"
+}
+
+// saveStmt: `v, has := assign[...Scopevar]`  ->  (v, has)
+func saveStmt(st ast.Stmt) (string, string, bool) {
+	as, ok := st.(*ast.AssignStmt)
+	if !ok || as.Tok != token.DEFINE || len(as.Lhs) != 2 || len(as.Rhs) != 1 || !isScopeVarIndex(as.Rhs[0]) {
+		return "", "", false
+	}
+	v, ok1 := as.Lhs[0].(*ast.Ident)
+	h, ok2 := as.Lhs[1].(*ast.Ident)
+	if !ok1 || !ok2 {
+		return "", "", false
+	}
+	return v.Name, h.Name, true
+}
+
+// restoreStmt: `if has { assign[...Scopevar] = v }`
+func restoreStmt(st ast.Stmt, v, has string) bool {
+	is, ok := st.(*ast.IfStmt)
+	if !ok || is.Init != nil || is.Else != nil || !isIdent(is.Cond, has) || len(is.Body.List) != 1 {
+		return false
+	}
+	as, ok := is.Body.List[0].(*ast.AssignStmt)
+	return ok && as.Tok == token.ASSIGN && len(as.Lhs) == 1 && len(as.Rhs) == 1 && isScopeVarIndex(as.Lhs[0]) && isIdent(as.Rhs[0], v)
+}
+
+// deleteStmt: `delete(assign, ...Scopevar)`
+func deleteStmt(st ast.Stmt) bool {
+	es, ok := st.(*ast.ExprStmt)
+	if !ok {
+		return false
+	}
+	c, ok := es.X.(*ast.CallExpr)
+	if !ok || !isIdent(c.Fun, "delete") || len(c.Args) != 2 || !isIdent(c.Args[0], "assign") {
+		return false
+	}
+	ch := selChain(c.Args[1])
+	return len(ch) > 0 && (ch[len(ch)-1] == "Scopevar" || ch[len(ch)-1] == "scopeVar")
+}
+
+func svKind(del, restore bool) string {
+	switch {
+	case del && restore:
+		return "SvDeleteThenRestore"
+	case del:
+		return "SvDeleteOnly"
+	case restore:
+		return "SvRestoreOnly"
+	}
+	return "SvLeak"
+}
+
+// LHSOverRHSStrategy.eval: the save must precede the `if f, has := exprFunctions[key]; has {` block; inside it
+// the iteration call comes first, then (optionally) the delete, then (optionally) the conditional restore.
+func lhsOverRhsScopeVar(f *ast.File) string {
+	for _, fd := range funcDecls(f) {
+		if recvName(fd) != "LHSOverRHSStrategy" || fd.Name.Name != "eval" || fd.Body == nil {
+			continue
+		}
+		v, has, saved := "", "", false
+		for _, st := range fd.Body.List {
+			if a, b, ok := saveStmt(st); ok {
+				v, has, saved = a, b, true
+				continue
+			}
+			is, ok := st.(*ast.IfStmt)
+			if !ok || is.Init == nil {
+				continue
+			}
+			// the dispatch block
+			called, del, restore := false, false, false
+			for _, bs := range is.Body.List {
+				switch {
+				case !called:
+					if as, ok := bs.(*ast.AssignStmt); ok && len(as.Rhs) == 1 {
+						if c, ok := as.Rhs[0].(*ast.CallExpr); ok && isIdent(c.Fun, "f") {
+							called = true
+							continue
+						}
+					}
+					return "SvUnknown"
+				case deleteStmt(bs):
+					if restore {
+						return "SvUnknown" // a delete after the restore would undo it
+					}
+					del = true
+				case saved && restoreStmt(bs, v, has):
+					restore = true
+				default:
+					if _, ok := bs.(*ast.ReturnStmt); ok {
+						continue
+					}
+					return "SvUnknown"
+				}
+			}
+			if !called {
+				return "SvUnknown"
+			}
+			return svKind(del, restore)
+		}
+	}
+	return "SvUnknown"
+}
+
+// evalTransform: the save follows `argValue := Eval(...)`; the restore sits in the deferred function; the deletes
+// follow the loops (one in evalTransformUsingAppender, two in evalTransform: map entries, single value).
+func transformScopeVar(f *ast.File) string {
+	nDelAppender, nDelTransform := 0, 0
+	v, has, saved, restore, argSeen, saveAfterArg := "", "", false, false, false, false
+	for _, fd := range funcDecls(f) {
+		if fd.Body == nil {
+			continue
+		}
+		switch fd.Name.Name {
+		case "evalTransformUsingAppender":
+			ast.Inspect(fd.Body, func(n ast.Node) bool {
+				if st, ok := n.(ast.Stmt); ok && deleteStmt(st) {
+					nDelAppender++
+				}
+				return true
+			})
+		case "evalTransform":
+			for _, st := range fd.Body.List {
+				if as, ok := st.(*ast.AssignStmt); ok && len(as.Lhs) == 1 && isIdent(as.Lhs[0], "argValue") {
+					argSeen = true
+				}
+				if a, b, ok := saveStmt(st); ok {
+					v, has, saved = a, b, true
+					saveAfterArg = argSeen
+				}
+				if ds, ok := st.(*ast.DeferStmt); ok && saved {
+					if fl, ok := ds.Call.Fun.(*ast.FuncLit); ok {
+						for _, bs := range fl.Body.List {
+							if restoreStmt(bs, v, has) {
+								restore = true
+							}
+						}
+					}
+				}
+			}
+			ast.Inspect(fd.Body, func(n ast.Node) bool {
+				if _, ok := n.(*ast.FuncLit); ok {
+					return false
+				}
+				if st, ok := n.(ast.Stmt); ok && deleteStmt(st) {
+					nDelTransform++
+				}
+				return true
+			})
+		}
+	}
+	if saved && !saveAfterArg {
+		return "SvUnknown"
+	}
+	switch {
+	case nDelAppender == 1 && nDelTransform == 2:
+		return svKind(true, restore)
+	case nDelAppender == 0 && nDelTransform == 0:
+		return svKind(false, restore)
+	}
+	return "SvUnknown"
 }
